@@ -259,7 +259,11 @@ std::string eval(const Sx &q) {
       if (i != d) before[i] = dump(pool[i], true);
     if (k == "top") pool[d].set_to_top();
     else if (k == "bot") pool[d].set_to_bottom();
-    else if (k == "copy") { Dom c(pool[std::stoul(op[2].a)]); pool[d] = c; }
+    else if (k == "copy") {
+      Dom c(pool[std::stoul(op[2].a)]);
+      if (oi % 2) pool[d] = c;                                  // copy ctor + copy assignment
+      else { Dom m(std::move(c)); pool[d] = std::move(m); }     // + move ctor + move assignment
+    }
     else if (k == "assign") pool[d].assign(var(vidx(op[2])), parse_lin(op[3]));
     else if (k == "arith") {
       if (op[5].a[0] == 'v') pool[d].apply(aop(op[2].a), var(vidx(op[3])), var(vidx(op[4])), var(vidx(op[5])));
@@ -347,8 +351,10 @@ std::string gen_cst(Rng &r, bool big_ok) {
   static const char *K[] = {"le", "le", "le", "lt", "eq", "ne"};
   std::string k = K[r.below(6)];
   unsigned shape = r.below(6);
-  if (shape <= 1) { // ±x ⋈ c
-    return "(" + k + " (lin " + gen_const(r, big_ok) + " (" + (r.coin() ? "1" : "-1") + " v" + std::to_string(r.below(NV)) + ")))";
+  if (shape <= 1) { // ±x ⋈ c   (sometimes k*x ⋈ c with a non-unit coefficient: inexact quotients)
+    std::string coef = r.coin() ? "1" : "-1";
+    if (r.below(4) == 0) { z_number c = gen_coef(r); if (!(c == 0)) coef = zs(c); }
+    return "(" + k + " (lin " + gen_const(r, big_ok) + " (" + coef + " v" + std::to_string(r.below(NV)) + ")))";
   } else if (shape <= 3) { // x - y ⋈ c  /  ±x ± y ⋈ c
     unsigned a = r.below(NV), b = r.below(NV);
     if (a == b) b = (a + 1) % NV;
@@ -428,7 +434,22 @@ std::string gen(Rng &r, const Args &a) {
     else if (k < 83) { unsigned s = r.below(NP); o << " (meet " << d << " " << s << " " << r.below(NP) << ") (narrow " << d << " " << s << " " << d << ")"; }
     else if (k < 86) o << " (joineq " << d << " " << r.below(NP) << ")";
     else if (k < 88) o << " (meeteq " << d << " " << r.below(NP) << ")";
-    else if (k < 93) o << " (copy " << d << " " << r.below(NP) << ")";
+    else if (k < 93) {
+      // a copy, then (mostly) an in-place operation on one of the two copies while they still
+      // share their representation: this is where a missing detach / clone shows (C16)
+      unsigned src = r.below(NP);
+      o << " (copy " << d << " " << src << ")";
+      if (r.below(3) != 0) {
+        unsigned t = r.coin() ? d : src;
+        switch (r.below(5)) {
+        case 0: o << " (joineq " << t << " " << r.below(NP) << ")"; break;
+        case 1: o << " (meeteq " << t << " " << r.below(NP) << ")"; break;
+        case 2: o << " (assign " << t << " v" << r.below(NV) << " " << gen_lin(r, big_ok) << ")"; break;
+        case 3: o << " (assume " << t << " " << gen_cst(r, big_ok) << ")"; break;
+        default: o << " (forget " << t << " v" << r.below(NV) << ")"; break;
+        }
+      }
+    }
     else if (k < 95) o << " (" << (r.coin() ? "normalize " : "minimize ") << d << ")";
     else if (k < 96) o << " (query " << d << ")";
     else if (k < 98) o << " (select " << d << " v" << r.below(NV) << " " << gen_cst(r, big_ok) << " " << gen_lin(r, big_ok, 2) << " " << gen_lin(r, big_ok, 2) << ")";
@@ -451,4 +472,7 @@ std::string gen(Rng &r, const Args &a) {
 
 } // namespace
 
-int main(int argc, char **argv) { return run_harness(argc, argv, gen, eval); }
+int main(int argc, char **argv) {
+  crab::CrabEnableWarningMsg(false); // "not implemented" warnings of some domains flood stderr
+  return run_harness(argc, argv, gen, eval);
+}
